@@ -688,36 +688,46 @@ def _between(y, yk, yj, xk, xj):
     return (not ((yk > y) != (yj > y))) or ((xi >= xk or xi >= xj) and (xi <= xk or xi <= xj))
 
 
-def outside_bbox(vx, vy, x, y):
-    return x < vx.min() or x > vx.max() or y < vy.min() or y > vy.max()
-
-
-def _edge_inv(k, vx, vy, x, y, n):
-    from vprim import witness, general, ite
+def _edge_inv(side, k, vx, vy, x, y, n):
+    """edges 0 .. k-1 processed; one invariant per side of the box the point lies on (four small proofs instead of one case split)"""
+    from vprim import witness, general
     above = lambda m: vy[m] > y
     if not (isinstance(k, int) and k == 0):
         kk = k - 1                      # the edge just processed: from vertex (kk - 1) mod n to vertex kk
         j = (kk + n - 1) % n
         witness(n, kk)
         witness(n, j)
-        general('meeting_point_between_the_end_points', _between, y, vy[kk], vy[j], vx[kk], vx[j])
-    left = x < vx.min()
+        if side in ('left', 'right'):
+            general('meeting_point_between_the_end_points', _between, y, vy[kk], vy[j], vx[kk], vx[j])
     odd = odd_crossings(vx, vy, x, y, k)
     if isinstance(k, int) and k == 0:
         return not odd
-    return ((not left) or odd == (k >= 1 and (above(k - 1) != above(n - 1)))) and (left or not odd)
+    if side == 'left':
+        # every edge that meets the line crosses the ray: parity follows the sign "vertex above the line"
+        return odd == (k >= 1 and (above(k - 1) != above(n - 1)))
+    return not odd                      # above, below, right: no edge crosses at all
+
+
+SIDES = {'left': lambda vx, vy, x, y: x < vx.min(), 'right': lambda vx, vy, x, y: x > vx.max(),
+         'below': lambda vx, vy, x, y: y < vy.min(), 'above': lambda vx, vy, x, y: y > vy.max()}
 
 
 @contract('contracts/k_kernels.py::ghost_point_vs_polygon', props=['C02', 'C01'])
 class lemma_point_outside_the_vertex_box_has_even_crossing_number:
-    def setup(B):
+    cases = {sd: {'side': sd} for sd in SIDES}
+
+    def setup(B, side='left'):
         n = B.int('n')
         B.assume(n >= 1)
-        return dict(vx=B.array('vx', (n,)), vy=B.array('vy', (n,)), x=B.real('x'), y=B.real('y'))
-    pre = lambda vx, vy, x, y: outside_bbox(vx, vy, x, y)
-    loops = {'ghost_point_vs_polygon#0': lambda k, vx, vy, x, y, n: _edge_inv(k, vx, vy, x, y, n)}
+        return dict(vx=B.array('vx', (n,)), vy=B.array('vy', (n,)), x=B.real('x'), y=B.real('y'), side=side)
+    pre = lambda vx, vy, x, y, side: SIDES[side](vx, vy, x, y)
+    loops = {'ghost_point_vs_polygon#0': lambda k, vx, vy, x, y, n, side: _edge_inv(side, k, vx, vy, x, y, n)}
     post = {'even': lambda result: not result,
             'not_a_member': lambda vx, vy, x, y: not crossings_odd(vx, vy, x, y)}
+
+
+def outside_bbox(vx, vy, x, y):
+    return x < vx.min() or x > vx.max() or y < vy.min() or y > vy.max()
 
 
 def outside_vertex_box(px, vx, vy):
@@ -735,8 +745,9 @@ def _far_inner_polygon(params, a, b, x0, y0, x1, y1, n):
         general('sample_centre_inside_cell', _centre_inside, y0, y1, b - 1, n)
         # the point lemma, used modularly at this sample: precondition and conclusion are those of its contract
         event('lemma', name='lemma_point_outside_the_vertex_box_has_even_crossing_number')
-        fact(implies(lemma_point_outside_the_vertex_box_has_even_crossing_number.pre(vx=vx, vy=vy, x=p[0], y=p[1]),
-                     not crossings_odd(vx, vy, p[0], p[1])))
+        for side in SIDES:
+            fact(implies(lemma_point_outside_the_vertex_box_has_even_crossing_number.pre(vx=vx, vy=vy, x=p[0], y=p[1], side=side),
+                         not crossings_odd(vx, vy, p[0], p[1])))
     return _far_inner('polygon', params, a, b, x0, y0, x1, y1, n)
 
 
